@@ -113,9 +113,11 @@ Print Assumptions C03_accepted_depth.
 Theorem C03_reject_too_deep_array : forall strtod f d r,
   c_CJSON_NESTING_LIMIT <= d -> value_l strtod f d (91 :: r) = None.
 Proof. exact reject_too_deep_array. Qed.
+Print Assumptions C03_reject_too_deep_array.
 Theorem C03_reject_too_deep_object : forall strtod f d r,
   c_CJSON_NESTING_LIMIT <= d -> value_l strtod f d (123 :: r) = None.
 Proof. exact reject_too_deep_object. Qed.
+Print Assumptions C03_reject_too_deep_object.
 
 (** more opening brackets (with any whitespace between) than the limit allows: refused whatever follows *)
 Theorem C03_reject_deep_brackets : forall strtod wl f d l,
@@ -129,22 +131,27 @@ Print Assumptions C03_reject_deep_brackets.
 (** truncated input / nothing where a value is expected *)
 Theorem C03_reject_empty : forall strtod f d, value_l strtod f d [] = None.
 Proof. exact reject_empty. Qed.
+Print Assumptions C03_reject_empty.
 
 (** a byte that starts no value (other than n f t quote - 0..9 [ {) *)
 Theorem C03_reject_bad_first_byte : forall strtod f d c r,
   value_start_byte c = false -> value_l strtod f d (c :: r) = None.
 Proof. exact reject_bad_first_byte. Qed.
+Print Assumptions C03_reject_bad_first_byte.
 
 (** misspelt, wrongly cased or truncated literals *)
 Theorem C03_reject_misspelt_null : forall strtod f d r,
   starts [117; 108; 108] r = None -> value_l strtod f d (110 :: r) = None.
 Proof. exact reject_misspelt_null. Qed.
+Print Assumptions C03_reject_misspelt_null.
 Theorem C03_reject_misspelt_false : forall strtod f d r,
   starts [97; 108; 115; 101] r = None -> value_l strtod f d (102 :: r) = None.
 Proof. exact reject_misspelt_false. Qed.
+Print Assumptions C03_reject_misspelt_false.
 Theorem C03_reject_misspelt_true : forall strtod f d r,
   starts [114; 117; 101] r = None -> value_l strtod f d (116 :: r) = None.
 Proof. exact reject_misspelt_true. Qed.
+Print Assumptions C03_reject_misspelt_true.
 
 (** numbers without digits: the token is not converted by strtod; for the reference strtod, a
     minus sign followed by neither a digit nor a point and a digit *)
@@ -153,6 +160,7 @@ Theorem C03_reject_unconverted_number : forall strtod f d c r,
   strtod (number_run (Z.to_nat (c_NUMBER_C_STRING_SIZE - 1)) (c :: r)) = None ->
   value_l strtod f d (c :: r) = None.
 Proof. exact reject_unconverted_number. Qed.
+Print Assumptions C03_reject_unconverted_number.
 Theorem C03_reject_minus_no_digits : forall f d s1,
   ParseListStrtod.nondigit_head s1 -> (forall r, s1 = 46 :: r -> ParseListStrtod.nondigit_head r) ->
   value_l strtod_ref f d (45 :: s1) = None.
@@ -168,74 +176,94 @@ Print Assumptions C03_reject_string_defect.
 (** the defects: unterminated body *)
 Theorem C03_dead_end_of_input : string_dead [].
 Proof. exact dead_end_of_input. Qed.
+Print Assumptions C03_dead_end_of_input.
 Theorem C03_dead_no_quote : forall l, ~ In 34 l -> string_dead l.
 Proof. exact dead_no_quote. Qed.
+Print Assumptions C03_dead_no_quote.
 Theorem C03_dead_backslash_at_end : string_dead [92].
 Proof. exact dead_backslash_at_end. Qed.
+Print Assumptions C03_dead_backslash_at_end.
 (** unknown escape *)
 Theorem C03_dead_unknown_escape : forall e r, simple_escape e = None -> e <> 117 -> string_dead (92 :: e :: r).
 Proof. exact dead_unknown_escape. Qed.
+Print Assumptions C03_dead_unknown_escape.
 (** \u not followed by four hex digits (too few bytes, or one of them not a hex digit) *)
 Theorem C03_dead_bad_hex : forall r, hex4_l r = None -> string_dead (92 :: 117 :: r).
 Proof. exact dead_bad_hex. Qed.
+Print Assumptions C03_dead_bad_hex.
 Theorem C03_hex4_short : forall r, (length r < 4)%nat -> hex4_l r = None.
 Proof. exact hex4_l_short. Qed.
+Print Assumptions C03_hex4_short.
 Theorem C03_hex4_nonhex : forall a b c d r,
   hexv a = None \/ hexv b = None \/ hexv c = None \/ hexv d = None -> hex4_l (a :: b :: c :: d :: r) = None.
 Proof. exact hex4_l_nonhex. Qed.
+Print Assumptions C03_hex4_nonhex.
 (** lone low surrogate; high surrogate not followed by \u + low surrogate *)
 Theorem C03_dead_lone_low_surrogate : forall r u r2,
   hex4_l r = Some (u, r2) -> is_low_surrogate u = true -> string_dead (92 :: 117 :: r).
 Proof. exact dead_lone_low_surrogate. Qed.
+Print Assumptions C03_dead_lone_low_surrogate.
 Theorem C03_dead_unpaired_high_surrogate : forall r u r2,
   hex4_l r = Some (u, r2) -> is_high_surrogate u = true ->
   (forall r3 u2 r4, r2 = 92 :: 117 :: r3 -> hex4_l r3 = Some (u2, r4) -> is_low_surrogate u2 = false) ->
   string_dead (92 :: 117 :: r).
 Proof. exact dead_unpaired_high_surrogate. Qed.
+Print Assumptions C03_dead_unpaired_high_surrogate.
 
 (** arrays, at ANY element position (any round k, any elements acc read so far), for any element
     parser vl: no value where one is expected (extra comma ''[,'' ''[1,]'' ''[1,,2]'', truncation ''[1,'') *)
 Theorem C03_elems_no_value : forall vl k l0 acc, vl (drop_ws l0) = None -> elems_l vl k l0 acc = None.
 Proof. exact elems_no_value. Qed.
+Print Assumptions C03_elems_no_value.
 (** after an element a byte other than , ] (missing comma ''[1 2]'', mismatched bracket ''[1}'') *)
 Theorem C03_elems_bad_separator : forall vl k l0 acc v r2 c2 r3,
   vl (drop_ws l0) = Some (v, r2) -> drop_ws r2 = c2 :: r3 -> c2 <> 44 -> c2 <> 93 ->
   elems_l vl k l0 acc = None.
 Proof. exact elems_bad_separator. Qed.
+Print Assumptions C03_elems_bad_separator.
 (** after an element the input ends (unbalanced ''[1'') *)
 Theorem C03_elems_truncated : forall vl k l0 acc v r2,
   vl (drop_ws l0) = Some (v, r2) -> drop_ws r2 = [] -> elems_l vl k l0 acc = None.
 Proof. exact elems_truncated. Qed.
+Print Assumptions C03_elems_truncated.
 (** a defect further right is reached through well-formed elements *)
 Theorem C03_elems_later : forall vl k l0 acc v r2 r3,
   vl (drop_ws l0) = Some (v, r2) -> drop_ws r2 = 44 :: r3 ->
   elems_l vl k r3 (v :: acc) = None -> elems_l vl (S k) l0 acc = None.
 Proof. exact elems_later. Qed.
+Print Assumptions C03_elems_later.
 Theorem C03_reject_array_first_byte : forall strtod f d r c r1,
   drop_ws r = c :: r1 -> c <> 93 -> value_start_byte c = false -> value_l strtod f d (91 :: r) = None.
 Proof. exact reject_array_first_byte. Qed.
+Print Assumptions C03_reject_array_first_byte.
 Theorem C03_reject_array_unclosed : forall strtod f d r, drop_ws r = [] -> value_l strtod f d (91 :: r) = None.
 Proof. exact reject_array_unclosed. Qed.
+Print Assumptions C03_reject_array_unclosed.
 
 (** objects, at ANY member position: the key is not a string (unquoted, number, ''{,'' , ''{''a'':1,}'') *)
 Theorem C03_members_nonstring_key : forall vl k l0 acc q rq,
   drop_ws l0 = q :: rq -> q <> 34 -> members_l vl k l0 acc = None.
 Proof. exact members_nonstring_key. Qed.
+Print Assumptions C03_members_nonstring_key.
 Theorem C03_members_truncated_key : forall vl k l0 acc, drop_ws l0 = [] -> members_l vl k l0 acc = None.
 Proof. exact members_truncated_key. Qed.
+Print Assumptions C03_members_truncated_key.
 Theorem C03_members_bad_key : forall vl k l0 acc rq,
   drop_ws l0 = 34 :: rq -> string_dead rq -> members_l vl k l0 acc = None.
 Proof. exact members_bad_key. Qed.
+Print Assumptions C03_members_bad_key.
 (** missing colon *)
 Theorem C03_members_missing_colon : forall vl k l0 acc rq key r2,
   drop_ws l0 = 34 :: rq -> string_l rq = Some (key, r2) ->
   (forall r3, drop_ws r2 <> 58 :: r3) -> members_l vl k l0 acc = None.
 Proof. exact members_missing_colon. Qed.
+Print Assumptions C03_members_missing_colon.
 (** no value after the colon (extra colon, ''{''a'':}'', truncation) *)
 Theorem C03_members_no_value : forall vl k l0 acc rq key r2 r3,
   drop_ws l0 = 34 :: rq -> string_l rq = Some (key, r2) -> drop_ws r2 = 58 :: r3 ->
   vl (drop_ws r3) = None -> members_l vl k l0 acc = None.
 Proof. exact members_no_value. Qed.
+Print Assumptions C03_members_no_value.
 (** after a member neither , nor } (missing comma, mismatched bracket ''{''a'':1]'', truncation) *)
 Theorem C03_members_bad_separator : forall vl k l0 acc rq key r2 r3 v0 r4,
   drop_ws l0 = 34 :: rq -> string_l rq = Some (key, r2) -> drop_ws r2 = 58 :: r3 ->
@@ -243,26 +271,32 @@ Theorem C03_members_bad_separator : forall vl k l0 acc rq key r2 r3 v0 r4,
   (forall r5, drop_ws r4 <> 44 :: r5) -> (forall r5, drop_ws r4 <> 125 :: r5) ->
   members_l vl k l0 acc = None.
 Proof. exact members_bad_separator. Qed.
+Print Assumptions C03_members_bad_separator.
 Theorem C03_members_later : forall vl k l0 acc rq key r2 r3 v0 r4 r5,
   drop_ws l0 = 34 :: rq -> string_l rq = Some (key, r2) -> drop_ws r2 = 58 :: r3 ->
   vl (drop_ws r3) = Some (v0, r4) -> drop_ws r4 = 44 :: r5 ->
   members_l vl k r5 (with_key key v0 :: acc) = None -> members_l vl (S k) l0 acc = None.
 Proof. exact members_later. Qed.
+Print Assumptions C03_members_later.
 Theorem C03_reject_object_nonstring_key : forall strtod f d r c r1,
   drop_ws r = c :: r1 -> c <> 125 -> c <> 34 -> value_l strtod f d (123 :: r) = None.
 Proof. exact reject_object_nonstring_key. Qed.
+Print Assumptions C03_reject_object_nonstring_key.
 Theorem C03_reject_object_unclosed : forall strtod f d r, drop_ws r = [] -> value_l strtod f d (123 :: r) = None.
 Proof. exact reject_object_unclosed. Qed.
+Print Assumptions C03_reject_object_unclosed.
 
 (** whole texts: a refused value is a refused text; required termination that is missing *)
 Theorem C03_text_reject : forall strtod l rnt,
   (forall f, value_l strtod f 0 (drop_ws (match starts [239; 187; 191] l with Some r => r | None => l end)) = None) ->
   text_l strtod l rnt = None.
 Proof. exact text_l_reject. Qed.
+Print Assumptions C03_text_reject.
 Theorem C03_text_reject_unterminated : forall strtod l t rest0,
   value_l strtod (S (length l)) 0 (drop_ws (match starts [239; 187; 191] l with Some r => r | None => l end)) = Some (t, rest0) ->
   (forall r, drop_ws_nz rest0 <> 0 :: r) -> text_l strtod l true = None.
 Proof. exact text_l_reject_unterminated. Qed.
+Print Assumptions C03_text_reject_unterminated.
 
 (** * 4b. ONE theorem for all contexts
 
@@ -284,56 +318,76 @@ Theorem C03_context_dead : forall strtod,
   (forall d l0 x, mctx strtod d l0 x -> dead strtod x ->
      forall f k acc l0', drop_ws l0' = drop_ws l0 -> members_l (value_l strtod f d) k l0' acc = None).
 Proof. exact ctx_dead. Qed.
+Print Assumptions C03_context_dead.
 
 (** dead foci (besides [string_dead], section 4): where a value is expected *)
 Theorem C03_dead_value_end : forall strtod d, dead strtod (FV d []).
 Proof. exact dead_value_end. Qed.
+Print Assumptions C03_dead_value_end.
 Theorem C03_dead_value_bad_byte : forall strtod d c r, value_start_byte c = false -> dead strtod (FV d (c :: r)).
 Proof. exact dead_value_bad_byte. Qed.
+Print Assumptions C03_dead_value_bad_byte.
 Theorem C03_dead_value_misspelt_null : forall strtod d r, starts [117; 108; 108] r = None -> dead strtod (FV d (110 :: r)).
 Proof. exact dead_value_misspelt_null. Qed.
+Print Assumptions C03_dead_value_misspelt_null.
 Theorem C03_dead_value_misspelt_false : forall strtod d r, starts [97; 108; 115; 101] r = None -> dead strtod (FV d (102 :: r)).
 Proof. exact dead_value_misspelt_false. Qed.
+Print Assumptions C03_dead_value_misspelt_false.
 Theorem C03_dead_value_misspelt_true : forall strtod d r, starts [114; 117; 101] r = None -> dead strtod (FV d (116 :: r)).
 Proof. exact dead_value_misspelt_true. Qed.
+Print Assumptions C03_dead_value_misspelt_true.
 Theorem C03_dead_value_unconverted_number : forall strtod d c r,
   ((c =? 45) || ((48 <=? c) && (c <=? 57))) = true ->
   strtod (number_run (Z.to_nat (c_NUMBER_C_STRING_SIZE - 1)) (c :: r)) = None -> dead strtod (FV d (c :: r)).
 Proof. exact dead_value_unconverted_number. Qed.
+Print Assumptions C03_dead_value_unconverted_number.
 Theorem C03_dead_value_too_deep_array : forall strtod d r, c_CJSON_NESTING_LIMIT <= d -> dead strtod (FV d (91 :: r)).
 Proof. exact dead_value_too_deep_array. Qed.
+Print Assumptions C03_dead_value_too_deep_array.
 Theorem C03_dead_value_too_deep_object : forall strtod d r, c_CJSON_NESTING_LIMIT <= d -> dead strtod (FV d (123 :: r)).
 Proof. exact dead_value_too_deep_object. Qed.
+Print Assumptions C03_dead_value_too_deep_object.
 (** where a separator, the colon or a key is expected: the input ends (truncation, unbalanced
     brackets) or a wrong byte is there (missing comma, mismatched bracket, missing colon, non-string key) *)
 Theorem C03_dead_elem_sep_end : forall strtod l, drop_ws l = [] -> dead strtod (FSA l).
 Proof. exact dead_elem_sep_end. Qed.
+Print Assumptions C03_dead_elem_sep_end.
 Theorem C03_dead_member_sep_end : forall strtod l, drop_ws l = [] -> dead strtod (FSO l).
 Proof. exact dead_member_sep_end. Qed.
+Print Assumptions C03_dead_member_sep_end.
 Theorem C03_dead_colon_end : forall strtod l, drop_ws l = [] -> dead strtod (FC l).
 Proof. exact dead_colon_end. Qed.
+Print Assumptions C03_dead_colon_end.
 Theorem C03_dead_key_end : forall strtod l, drop_ws l = [] -> dead strtod (FK l).
 Proof. exact dead_key_end. Qed.
+Print Assumptions C03_dead_key_end.
 Theorem C03_dead_elem_sep_byte : forall strtod l c r, drop_ws l = c :: r -> c <> 44 -> c <> 93 -> dead strtod (FSA l).
 Proof. exact dead_elem_sep_byte. Qed.
+Print Assumptions C03_dead_elem_sep_byte.
 Theorem C03_dead_member_sep_byte : forall strtod l c r, drop_ws l = c :: r -> c <> 44 -> c <> 125 -> dead strtod (FSO l).
 Proof. exact dead_member_sep_byte. Qed.
+Print Assumptions C03_dead_member_sep_byte.
 Theorem C03_dead_colon_byte : forall strtod l c r, drop_ws l = c :: r -> c <> 58 -> dead strtod (FC l).
 Proof. exact dead_colon_byte. Qed.
+Print Assumptions C03_dead_colon_byte.
 Theorem C03_dead_key_byte : forall strtod l c r, drop_ws l = c :: r -> c <> 34 -> dead strtod (FK l).
 Proof. exact dead_key_byte. Qed.
+Print Assumptions C03_dead_key_byte.
 
 (** a value accepted with some fuel is never parsed differently with other fuel *)
 Theorem C03_fuel_independent : forall strtod f1 f2 d l x y,
   value_l strtod f1 d l = Some x -> value_l strtod f2 d l = Some y -> x = y.
 Proof. exact value_l_fuel_det. Qed.
+Print Assumptions C03_fuel_independent.
 
 (** non-vacuity: the unknown escape in  [1,{''k'':''a\x''}]  is reached through a context *)
 Theorem C03_context_example :
   vctx strtod_ref 0 ctx_ex_text (FS [92; 120; 34; 125; 93]) /\ dead strtod_ref (FS [92; 120; 34; 125; 93]).
 Proof. exact ctx_ex_context. Qed.
+Print Assumptions C03_context_example.
 Theorem C03_context_example_rejected : text_l strtod_ref ctx_ex_text false = None.
 Proof. exact ctx_ex_rejected. Qed.
+Print Assumptions C03_context_example_rejected.
 
 (** * 5. Non-vacuity *)
 
@@ -343,6 +397,7 @@ Proof. exact strtod_ref_hyps. Qed.
 Print Assumptions C03_strtod_ref_hyps.
 Theorem C03_strtod_ref_rfc : strtod_rfc strtod_ref.
 Proof. exact strtod_ref_rfc_contract. Qed.
+Print Assumptions C03_strtod_ref_rfc.
 
 (** a text using every leniency (0x01 as whitespace, a raw 0x01 in a string, the numbers 01 and 1.)
     is accepted, with and without required termination, derives in the lenient grammar, and
@@ -350,16 +405,21 @@ Proof. exact strtod_ref_rfc_contract. Qed.
 Theorem C03_lenient_example_accepted :
   text_l strtod_ref (len_ex_text ++ [120]) false = Some (tree_of strtod_ref len_ex_value, [120]).
 Proof. exact len_ex_accepted. Qed.
+Print Assumptions C03_lenient_example_accepted.
 Theorem C03_lenient_example_accepted_terminated :
   text_l strtod_ref (len_ex_text ++ [32; 0; 120]) true = Some (tree_of strtod_ref len_ex_value, [0; 120]).
 Proof. exact len_ex_accepted_terminated. Qed.
+Print Assumptions C03_lenient_example_accepted_terminated.
 Theorem C03_lenient_example_garbage_rejected : text_l strtod_ref (len_ex_text ++ [120; 0]) true = None.
 Proof. exact len_ex_garbage_rejected. Qed.
+Print Assumptions C03_lenient_example_garbage_rejected.
 Theorem C03_lenient_example_derives : LEN_text strtod_ref len_ex_text len_ex_value.
 Proof. exact len_ex_derives. Qed.
+Print Assumptions C03_lenient_example_derives.
 Theorem C03_lenient_example_not_rfc :
   rfc_ws 1 = false /\ rfc_raw 1 = false /\ rfc_number [48; 49] = false /\ rfc_number [49; 46] = false.
 Proof. exact len_ex_not_rfc_leaves. Qed.
+Print Assumptions C03_lenient_example_not_rfc.
 
 (** concrete rejected texts ( [1,]  [1 2]  {1:2}  {''a'' 1}  nul  -  ''abc  ''\x41''  ''\u12G4''  ''\uDC00''
     ''\uD800\uD800'' ) and 1001 nested arrays; 1000 are accepted *)
@@ -380,8 +440,10 @@ Proof.
         (conj rej_truncated_lit (conj rej_minus (conj rej_unterminated (conj rej_unknown_escape
         (conj rej_bad_hex (conj rej_lone_low rej_high_high)))))))))).
 Qed.
+Print Assumptions C03_rejected_examples.
 Theorem C03_rejected_too_deep : text_l strtod_ref (repeat 91 1001 ++ repeat 93 1001) false = None.
 Proof. exact rej_too_deep. Qed.
+Print Assumptions C03_rejected_too_deep.
 Theorem C03_accepted_at_limit : exists t, text_l strtod_ref (repeat 91 1000 ++ repeat 93 1000) false = Some (t, []).
 Proof. exact acc_at_limit. Qed.
-Print Assumptions C03_rejected_examples.
+Print Assumptions C03_accepted_at_limit.
